@@ -36,7 +36,7 @@ def showClient : Client → String
 def semi (xs : List String) : String := if xs.isEmpty then "-" else ";".intercalate xs
 
 def showSys (s : Sys) : String :=
-  let q := semi (s.queue.map showItem)
+  let q := semi ((s.queue ++ s.behind).map showItem)
   let o := semi (s.out.map fun (t, b) => s!"{t}:{hexOrDash b}")
   let d := semi (s.done.map fun (t, r) => s!"{t}:{showRes r}")
   s!"c={if s.closed then 1 else 0} t={s.now} cl={showClient s.client} q={q} out={o} done={d}"
